@@ -12,17 +12,47 @@ Arguments POk {A}. Arguments PErr {A}. Arguments PPanic {A}. Arguments PFuel {A}
 Definition of_bres {A} (r : bres A) : presult A :=
   match r with BOk x => POk x | BPanic k => PPanic k end.
 
+(** parser/mod.rs validate_string_values: every NormalStringValue pair of the tree (pre-order, as Pairs::flatten),
+    decoded once before building; the first invalid unicode escape makes the parse an error *)
+Inductive vres := VOk | VErr | VPanic (k : N).
+Fixpoint validate_pair (inp : str) (p : pair rule) : vres :=
+  match p with
+  | Pair r _ _ kids =>
+      let self :=
+        match r with
+        | R_NormalStringValue =>
+            match decode_string_characters inp p with DOk _ => VOk | DErr _ => VErr | DPanic k => VPanic k end
+        | _ => VOk
+        end in
+      match self with
+      | VOk => (fix go (l : list (pair rule)) : vres :=
+                  match l with
+                  | [] => VOk
+                  | x :: l' => match validate_pair inp x with VOk => go l' | e => e end
+                  end) kids
+      | e => e
+      end
+  end.
+Fixpoint validate_string_values (inp : str) (ps : list (pair rule)) : vres :=
+  match ps with
+  | [] => VOk
+  | p :: r => match validate_pair inp p with VOk => validate_string_values inp r | e => e end
+  end.
+
+Definition after_validation {A} (inp : str) (ps : list (pair rule)) (build : presult A) : presult A :=
+  match validate_string_values inp ps with VOk => build | VErr => PErr | VPanic k => PPanic k end.
+
 (** parse_operation_document / parse_type_system_document; [file] is ast::current_file's thread-local *)
 Definition parse_operation_document (file : N) (inp : str) : presult opdoc :=
   match parse_pairs R_ExecutableDocument inp with
-  | Ok ps => of_bres (build_operation_document inp file ps)
+  | Ok ps => after_validation inp ps (of_bres (build_operation_document inp file ps))
   | Fail => PErr
   | OutOfFuel => PFuel
   end.
 
 Definition parse_type_system_document (file : N) (inp : str) : presult tsdoc :=
   match parse_pairs R_TypeSystemExtensionDocument inp with
-  | Ok ps => of_bres (build_type_system_document inp file ps)
+  | Ok ps => after_validation inp ps (of_bres (build_type_system_document inp file ps))
   | Fail => PErr
   | OutOfFuel => PFuel
   end.
